@@ -65,9 +65,36 @@ def gen_world(g):
         nodes.append((key, attrs))
     node(1, gA, 'x', 'NetworkNode', 'Facility', False, 'xA')
     node(2, gA, 'a1', 'NetworkNode', 'Server', True, 'a1')
-    node(3, gB, 'x', 'NetworkNode', 'Facility', False, 'xB')
+    node(3, gB, 'x', 'NetworkNode', 'Facility', g.choice(2, 'the second model delegates on the shared element?') == 0, 'xB')
     node(4, gB, 'b1', 'NetworkNode', 'Server', True, 'b1')
     edges = [(1, 2, {'Class': 'connects'}), (3, 4, {'Class': 'connects'})]
+    G = build_graph(nodes, edges)
+    store = PObj(gm.SHARED, dict(graphs=G, start_id=10, log=None, lock=LockVal()))
+    imp = PObj(NetworkXGraphImporter, dict(storage=store, graph_class=NetworkXPropertyGraph, log=None))
+    mk = lambda cls, gid: PObj(cls, dict(graph_id=gid, importer=imp, log=__import__('pyvc.values', fromlist=['Foreign']).Foreign(None), storage=store))
+    return mk(CBMOverNX, gC), mk(NetworkXADMGraph, gA), mk(NetworkXADMGraph, gB)
+
+
+def gen_world2(g):
+    """two shared elements: ADM A = {x, y, a1} with x-a1, y-a1; ADM B = {x, y, b1} with x-b1 and the connection x-y that
+    only B has"""
+    gA, gB, gC = g.atom('admA'), g.atom('admB'), g.atom('cbm')
+    g.assume(z3.And(gA.t != gB.t, gA.t != gC.t, gB.t != gC.t))
+    nodes = []
+
+    def node(key, gid, nid, typ, delegated, name):
+        attrs = dict(GraphID=gid, NodeID=nid, Class='NetworkNode', Type=typ, Name=nid, StitchNode='true' if nid in ('x', 'y') else 'false')
+        if delegated:
+            did = g.atom(f'did_{name}')
+            attrs[CAP] = deleg_json(g, did, CAP, name)
+        nodes.append((key, attrs))
+    node(1, gA, 'x', 'Facility', False, 'xA')
+    node(2, gA, 'y', 'Facility', False, 'yA')
+    node(3, gA, 'a1', 'Server', True, 'a1')
+    node(4, gB, 'x', 'Facility', True, 'xB')
+    node(5, gB, 'y', 'Facility', False, 'yB')
+    node(6, gB, 'b1', 'Server', True, 'b1')
+    edges = [(1, 3, {'Class': 'connects'}), (2, 3, {'Class': 'connects'}), (4, 6, {'Class': 'connects'}), (4, 5, {'Class': 'connects'})]
     G = build_graph(nodes, edges)
     store = PObj(gm.SHARED, dict(graphs=G, start_id=10, log=None, lock=LockVal()))
     imp = PObj(NetworkXGraphImporter, dict(storage=store, graph_class=NetworkXPropertyGraph, log=None))
@@ -222,10 +249,11 @@ class MergeContracts(Contract):
             unmerged = snap(h, cbm)
             # roll the second world... (rollback on the first: merge B again, then roll back to the snapshot taken after A)
             h.call(CBMOverNX.merge_adm, cbm, adm=b)
+            remerged = snap(h, cbm)
             h.call(CBMOverNX.rollback, cbm, graph_id=sid)
             rolled = snap(h, cbm)
             return dict(srcA0=srcA0, srcB0=srcB0, srcA1=srcA1, srcB1=srcB1, afterA=afterA, afterAB=afterAB, afterBA=afterBA,
-                        unmerged=unmerged, rolled=rolled)
+                        unmerged=unmerged, rolled=rolled, remerged=remerged)
         return run(h, go)
 
     @staticmethod
@@ -258,7 +286,51 @@ class MergeContracts(Contract):
             views_same(post.result['srcA0'], post.result['srcA1']), views_same(post.result['srcB0'], post.result['srcB1'])),
         'unmerge.inverse_of_merge': lambda pre, post: returned(post) and views_same(post.result['afterA'], post.result['unmerged']),
         'rollback.restores_snapshot': lambda pre, post: returned(post) and views_same(post.result['afterA'], post.result['rolled']),
+        'remerge.after_unmerge_gives_the_union_again': lambda pre, post: returned(post) and views_same(
+            post.result['afterAB'], post.result['remerged']),
     }
 
 
-CONTRACTS = [MergeContracts]
+class TwoSharedElements(MergeContracts):
+    """the same history when the two models share TWO elements and only the second model connects them"""
+    bounded = 'two delegation models of 3 elements sharing two stitching elements, one of them joined only in the second model'
+
+    def inputs(self, g):
+        cbm, a, b = gen_world2(g)
+        cbm2, a2, b2 = snapshot((cbm, a, b))
+        return [cbm, a, b, cbm2, a2, b2], {}
+
+    @staticmethod
+    def _union2(pre, post):
+        if not returned(post):
+            return False
+        nodes, edges = post.result['afterAB']
+        gA, gB = fldv(pre.args[1], 'graph_id'), fldv(pre.args[2], 'graph_id')
+        if set(nodes) != {'x', 'y', 'a1', 'b1'} or edges != [('a1', 'x'), ('a1', 'y'), ('b1', 'x'), ('x', 'y')]:
+            return False
+        return And(same_members(contributors(nodes['x']), [gA, gB]), same_members(contributors(nodes['y']), [gA, gB]),
+                   same_members(contributors(nodes['a1']), [gA]), same_members(contributors(nodes['b1']), [gB]))
+
+    @staticmethod
+    def _unmerge_except_known(pre, post):
+        """KF-C14-1 companion: what unmerge leaves differs from the state before the merge at most by connections between
+        two elements that the remaining model shares with the removed one"""
+        if not returned(post):
+            return False
+        (n0, e0), (n1, e1) = post.result['afterA'], post.result['unmerged']
+        shared = {'x', 'y'}
+        drop = lambda es: [e for e in es if not (e[0] in shared and e[1] in shared)]
+        return views_same((n0, drop(e0)), (n1, drop(e1)))
+
+    ensures = {
+        'merge.union_contributors_and_keys': lambda pre, post: TwoSharedElements._union2(pre, post),
+        'merge.order_independent': MergeContracts.ensures['merge.order_independent'],
+        'merge.sources_untouched': MergeContracts.ensures['merge.sources_untouched'],
+        'unmerge.inverse_of_merge': MergeContracts.ensures['unmerge.inverse_of_merge'],
+        'unmerge.inverse_of_merge_or_known_defect_KF-C14-1': lambda pre, post: TwoSharedElements._unmerge_except_known(pre, post),
+        'rollback.restores_snapshot': MergeContracts.ensures['rollback.restores_snapshot'],
+        'remerge.after_unmerge_gives_the_union_again': MergeContracts.ensures['remerge.after_unmerge_gives_the_union_again'],
+    }
+
+
+CONTRACTS = [MergeContracts, TwoSharedElements]
